@@ -4,5 +4,8 @@ func (e *executor) other(t []string) (string, bool) {
 	if r, ok := e.agentOp(t); ok {
 		return r, true
 	}
+	if r, ok := e.hmacOp(t); ok {
+		return r, true
+	}
 	return "", false
 }
